@@ -147,8 +147,8 @@ theorem csv_reject (first : Row) (pre : List Row) (r : Row) (post : List Row)
     csv-single-empty-field, csv-crlf-in-field): -/
 theorem csv_comment_row_witness :
     fromCsv (toCsv [["#a".toList, "b".toList], ["x".toList, "y".toList]]) = some [["x".toList, "y".toList]] := by
-  unfold fromCsv
-  rw [norm_toCsv _ (by
+  unfold fromCsv fromCsvWith toCsv
+  rw [norm_toCsv ',' delimOK_comma _ (by
     intro r hr f hf
     simp only [List.mem_cons, List.mem_nil_iff, or_false] at hr
     rcases hr with rfl | rfl <;> simp only [List.mem_cons, List.mem_nil_iff, or_false] at hf <;>
@@ -157,8 +157,8 @@ theorem csv_comment_row_witness :
 
 theorem csv_single_empty_field_witness :
     fromCsv (toCsv [[[]], ["x".toList]]) = some [["x".toList]] := by
-  unfold fromCsv
-  rw [norm_toCsv _ (by
+  unfold fromCsv fromCsvWith toCsv
+  rw [norm_toCsv ',' delimOK_comma _ (by
     intro r hr f hf
     simp only [List.mem_cons, List.mem_nil_iff, or_false] at hr
     rcases hr with rfl | rfl <;> simp only [List.mem_cons, List.mem_nil_iff, or_false] at hf <;>
@@ -168,7 +168,7 @@ theorem csv_single_empty_field_witness :
 theorem csv_crlf_witness :
     fromCsv (toCsv [["a\r\nb".toList]]) = some [["a\nb".toList]] := by
   have h : toCsv [["a\r\nb".toList]] = ['"', 'a', '\r', '\n', 'b', '"', '\n'] := by decide
-  unfold fromCsv
+  unfold fromCsv fromCsvWith
   rw [h, norm_cons_ne '"' _ (by decide), norm_cons_ne 'a' _ (by decide), norm_crlf,
     norm_cons_ne 'b' _ (by decide), norm_cons_ne '"' _ (by decide), norm_cons_ne '\n' _ (by decide), norm_nil]
   decide
@@ -193,9 +193,28 @@ example : toCsv [["a,b".toList, " x".toList, []], ["\"q\"".toList, "l1\nl2".toLi
     = "\"a,b\",\" x\",\n\"\"\"q\"\"\",\"l1\nl2\",\"\r\"\n".toList := by decide
 /-- LazyQuotes: a quote that is never closed ends with the input, a bare quote is literal -/
 example : fromCsv "\"ab".toList = some [["ab".toList]] ∧ fromCsv "a\"b,c\n".toList = some [["a\"b".toList, "c".toList]] := by
-  unfold fromCsv
+  unfold fromCsv fromCsvWith
   rw [norm_no_cr _ (by decide), norm_no_cr _ (by decide)]
   decide
+/-- … for EVERY delimiter both directions accept (`DelimOK d`: not '"', LF, CR, '#'), in particular
+    white-space delimiters (tab, space) with empty cells: fq switches TrimLeadingSpace off for them
+    (`trimOf`, /repo 4cd46826) -/
+theorem csv_roundtrip_delim (d : Char) (hd : DelimOK d) (rows : List Row) (h : TableOK rows) :
+    fromCsvWith d (toCsvWith d rows) = some rows := fromCsvWith_toCsvWith d hd rows h
+
+/-- … hence for every `comma` option string from_csv accepts, with the same option on both sides -/
+theorem csv_roundtrip_option (opt : List UInt8) (c : Char) (hc : fromCsvDelim opt = some c) (rows : List Row)
+    (h : TableOK rows) : toCsvDelim opt = some c ∧ fromCsvWith c (toCsvWith c rows) = some rows :=
+  ⟨delim_agree opt c hc, fromCsvWith_toCsvWith c (delimOK_of_option opt c hc) rows h⟩
+
+example : DelimOK '\t' ∧ DelimOK ' ' ∧ DelimOK ';' := ⟨⟨by decide, by decide, by decide, by decide⟩,
+  ⟨by decide, by decide, by decide, by decide⟩, ⟨by decide, by decide, by decide, by decide⟩⟩
+example : toCsvWith '\t' [[[], "a".toList], [[], "b c".toList]] = "\ta\n\tb c\n".toList := by decide
+/-- the behaviour before /repo 4cd46826 (always trimming): the tab in front of an empty field is
+    swallowed and the field is lost (former known finding csv-whitespace-delimiter-loses-empty-fields) -/
+example : (readFieldTrimAlways '\t' "\ta\n".toList).field = "a".toList ∧ (readField '\t' "\ta\n".toList).field = [] := by
+  decide +kernel
+
 /-- the `comma` option is read the same way by both directions: a delimiter that from_csv accepts is
     the one to_csv writes with, for EVERY option string (ASCII or multi-byte) -/
 theorem csv_option_delim_agree (opt : List UInt8) (c : Char) (h : fromCsvDelim opt = some c) :
